@@ -56,6 +56,22 @@ def _prepare(scratch):
     return dst, appended
 
 
+def _drop_crate_artifacts(target):
+    """remove every artefact / fingerprint / incremental state of the workspace crate (lib, tests, examples) from a target dir"""
+    names = ("btdht", "tests", "search")
+    for root, dirs, files in os.walk(target):
+        for d in list(dirs):
+            if d == "incremental" or any(d == n or d.startswith(n + "-") for n in names):
+                shutil.rmtree(os.path.join(root, d), ignore_errors=True)
+                dirs.remove(d)
+        for f in files:
+            if any(n in f for n in ("btdht", "verif_kani")) or any(f.startswith(n + "-") or f.startswith("lib" + n + "-") for n in names):
+                try:
+                    os.unlink(os.path.join(root, f))
+                except OSError:
+                    pass
+
+
 def _parse(output):
     """-> {harness: {status, failed_checks, checks, covers}}"""
     res = {}
@@ -111,40 +127,47 @@ def prefetch(harnesses, scratch_root):
         cmd = ["cargo", "kani", "-Z", "stubbing", "-Z", "function-contracts", "-j", "8", "--output-format", "terse"]
         for h in todo:
             cmd += ["--harness", h]
-        # dependency build cache shared between runs (only third-party crates are reused: the scratch copy of btdht has a
-        # fresh path every run, so the crate under proof is always rebuilt from /repo's current working tree)
-        env = dict(os.environ, CARGO_NET_OFFLINE="true", CARGO_TARGET_DIR=os.path.join(scratch_root, "kani-deps-cache"))
-        # Kani runs are serialised across processes: they share the dependency build cache
-        import fcntl
-        lock = open(os.path.join(scratch_root, "kani.lock"), "w")
-        fcntl.flock(lock, fcntl.LOCK_EX)
+        # Every run gets a PRIVATE cargo target directory.  Third-party crates come from a shared cache that is hard-linked into
+        # it (cp -al); everything cargo could mistake for an up-to-date build of the crate under proof is removed first.  (Cargo
+        # keys a workspace member's artefacts and fingerprint by its path RELATIVE to the workspace root, so two scratch copies
+        # of btdht at different absolute paths collide in a shared target directory: a concurrent or later run could be handed
+        # the other tree's build.  A private directory rules that out.)
+        cache = os.path.join(scratch_root, "kani-deps-cache")
+        target = os.path.join(scratch, "target")
+        if os.path.isdir(cache):
+            subprocess.run(["cp", "-al", cache, target], check=False)
+            _drop_crate_artifacts(target)
+        env = dict(os.environ, CARGO_NET_OFFLINE="true", CARGO_TARGET_DIR=target)
         try:
-            try:
-                r = subprocess.run(cmd, cwd=dst, capture_output=True, text=True, timeout=6000, env=env)
-            except subprocess.TimeoutExpired:
-                for h in todo:
-                    _KCACHE[h] = {"hr": None, "concrete": None, "cmd": " ".join(cmd), "problem": "kx: cargo kani timeout"}
-                return
-            cmdtxt = "CARGO_NET_OFFLINE=true " + " ".join(cmd) + "   # in a scratch copy of /repo with kx/harness/* appended"
-            text = r.stdout + "\n" + r.stderr
-            res = _parse(text)
-            if not res:
-                # build failure / compiler crash in the scratch copy: renamed item, changed signature, Kani limit -> inconclusive
-                msg = "kx: kani produced no harness result (compile error in harness against the current tree, or a Kani compiler limit): " + text[-1200:]
-                for h in todo:
-                    _KCACHE[h] = {"hr": None, "concrete": None, "cmd": cmdtxt, "problem": msg}
-                return
+            r = subprocess.run(cmd, cwd=dst, capture_output=True, text=True, timeout=6000, env=env)
+        except subprocess.TimeoutExpired:
             for h in todo:
-                hr = res.get(h)
-                concrete = None
-                if hr is not None and hr["status"] not in (None, "SUCCESSFUL"):
-                    real = [f for f in hr["failed"] if "unwinding assertion" not in f]
-                    if real:
-                        concrete = _playback(dst, h, env)
-                _KCACHE[h] = {"hr": hr, "concrete": concrete, "cmd": cmdtxt, "problem": None if hr is not None and hr["status"] is not None else "kx: no result for harness %s" % h}
-        finally:
-            fcntl.flock(lock, fcntl.LOCK_UN)
-            lock.close()
+                _KCACHE[h] = {"hr": None, "concrete": None, "cmd": " ".join(cmd), "problem": "kx: cargo kani timeout"}
+            return
+        cmdtxt = "CARGO_NET_OFFLINE=true " + " ".join(cmd) + "   # in a scratch copy of /repo with kx/harness/* appended"
+        text = r.stdout + "\n" + r.stderr
+        res = _parse(text)
+        if not res:
+            # build failure / compiler crash in the scratch copy: renamed item, changed signature, Kani limit -> inconclusive
+            msg = "kx: kani produced no harness result (compile error in harness against the current tree, or a Kani compiler limit): " + text[-1200:]
+            for h in todo:
+                _KCACHE[h] = {"hr": None, "concrete": None, "cmd": cmdtxt, "problem": msg}
+            return
+        for h in todo:
+            hr = res.get(h)
+            concrete = None
+            if hr is not None and hr["status"] not in (None, "SUCCESSFUL"):
+                real = [f for f in hr["failed"] if "unwinding assertion" not in f]
+                if real:
+                    concrete = _playback(dst, h, env)
+            _KCACHE[h] = {"hr": hr, "concrete": concrete, "cmd": cmdtxt, "problem": None if hr is not None and hr["status"] is not None else "kx: no result for harness %s" % h}
+        if not os.path.isdir(cache):
+            # first run on this machine: publish the dependency builds (atomic rename; a concurrent publisher wins harmlessly)
+            try:
+                _drop_crate_artifacts(target)
+                os.rename(target, cache)
+            except OSError:
+                pass
     finally:
         shutil.rmtree(scratch, ignore_errors=True)
 
